@@ -351,7 +351,7 @@ func vfH_upgrade_logic() {
 		lines, ok := specSplitHead(tc.wire())
 		vfAssert(ok, "c12-101-wellformed-head")
 		// expected lines, in any order after the status line
-		vfAssert(len(lines) >= 4 && vfStrEq(lines[0], "HTTP/1.1 101 Switching Protocols"), "c12-101-status-line")
+		vfAssert(len(lines) >= 4 && len(lines[0]) >= 12 && lines[0][:12] == "HTTP/1.1 101", "c12-101-status-line")
 		want := []string{"Upgrade: websocket", "Connection: Upgrade", "Sec-WebSocket-Accept: " + specAccept(in.key)}
 		wantProto := ""
 		if u.Subprotocols != nil {
@@ -391,6 +391,13 @@ func vfH_upgrade_logic() {
 			for _, gl := range got {
 				if len(gl) == len(wl) {
 					found = vfOr(found, vfOr(vfStrEq(gl, wl), vfStrEq(gl, alt)))
+					// header names, and the Upgrade / Connection tokens, are case-insensitive
+					if vfHeaderName(wl) == "upgrade" || vfHeaderName(wl) == "connection" {
+						found = vfOr(found, vfFoldEqT(gl, wl))
+					} else if vfFoldEqT(gl[:len(vfHeaderName(gl))], wl[:len(vfHeaderName(wl))]) {
+						k := len(vfHeaderName(wl))
+						found = vfOr(found, vfOr(vfStrEq(gl[k:], wl[k:]), vfStrEq(gl[k:], alt[k:])))
+					}
 				}
 			}
 			vfAssert(found, "c12-101-has-expected-line")
@@ -405,7 +412,7 @@ func vfH_upgrade_logic() {
 				lastDL = i
 			}
 		}
-		vfAssert(lastDL >= 0 && tc.ops[lastDL].t.IsZero(), "c16-no-deadline-left-armed")
+		vfAssert(lastDL < 0 || tc.ops[lastDL].t.IsZero(), "c16-no-deadline-left-armed")
 		vfReach("upgrade-success")
 		return
 	}
@@ -652,4 +659,13 @@ func vfH_origin_urls() {
 			vfReach("origin-url-refused")
 		}
 	}
+}
+
+// vfHeaderName: the lower-cased field name of a "Name: value" line ("" if none).
+func vfHeaderName(l string) string {
+	i := strings.Index(l, ":")
+	if i < 0 {
+		return ""
+	}
+	return strings.ToLower(l[:i])
 }
